@@ -22,8 +22,20 @@ run of adjacent functions as a whole.
 "A function value keeps every captured variable": closures whose catch clause reads captured
 variables after an exception came up through frames with other environments (id_catchcap), and
 closures called as temporaries whose callee allocates (id_tempcall); the original additionally runs
-with VM heaps of 150 and 400 cells (default 20000) so that collections happen while the closure
+with VM heaps of 150, 220 and 400 cells (default 20000) so that collections happen while the closure
 waits in a call — heap limit reached = skipped for that size, crash / other outcome = violation.
+Function-typed cells (var, captured var, var parameter, record field, array element) re-assigned with a
+closure of the same literal from another activation (id_rebind); a function nested in a named nested
+function that mentions that function (id_siblings forms 5-7, fixed finding nested-self-reference-...).
+
+Evaluator-free part (run_scope_family below): text templates over constructs OUTSIDE Src/Syntax.v —
+if-let / match with record and item patterns, dimension names of array / range / slice parameters
+captured by closures, list-comprehension qualifiers, for-in over slices, catch-clause bodies,
+module-level lets.  One placeholder per binder; every spelling (all binders distinct, an inner binder
+spelled like an outer one where lexical scoping keeps every use with its binder, injectively renamed,
+closure reads through a let copy) must behave alike on the real compiler + VM (heaps 20000/400/150).
+  spelling changes the outcome -> ctx.violation(scope-meta:<template>:<merged binders>), reduced to the
+  functions of the first differing print;  crash -> ctx.violation(scope-meta:crash:<template>:...)
 """
 LEVEL = "proof"
 
@@ -37,7 +49,599 @@ from checks import c02 as c02mod
 
 CORPUS = os.path.join(common.VERIF, "corpus", "C08")
 PROFILES = ["shadow", "closure", "alias"]
-HEAPS = (150, 400)
+HEAPS = (150, 220, 400)
+
+
+
+# ------------------------------------------------------------------------------------------------
+# Evaluator-free metamorphic family: lexical scoping outside the modelled core
+# ------------------------------------------------------------------------------------------------
+# The property's own oracle: each use of a name refers to the innermost enclosing binding in the
+# source text, whatever other bindings of the same spelling exist elsewhere.  Hence renaming one
+# binder together with exactly the uses it scopes over never changes what a program does.  The
+# templates below are written with one placeholder {X} per BINDER (its binding occurrence and the
+# uses that lexically belong to it).  Spellings of a template:
+#   distinct        every placeholder gets its own name;
+#   merge inner=outer   the inner binder takes the spelling of an outer (or sibling-scope) binder; only
+#                   merges listed with the template are used: no use of `outer` stands inside the scope
+#                   of `inner`, so lexical scoping still resolves every use to its own binder;
+#   all             all listed merges at once;   renamed   a seeded injective renaming;
+#   alt<k>          a hand-written equivalent text in which a closure reads an immutable binder (array
+#                   dimension, range bound, pattern variable) through a `let` copy made in the defining scope
+#                   ("a function value sees the same binding as its defining scope").
+# All spellings must give the same result and prints on the real compiler + VM, with the default heap
+# and with small heaps (heap limit reached = skipped).  No evaluator is involved.  {#k} are seeded
+# integer constants.
+SHAPES_DECL = ("enum Shape { Rect { w : int; h : int; }, Ell { rx : int; ry : int; }, "
+               "Tri { a : int; b : int; c : int; }, Dot }\n")
+
+SCOPE_TEMPLATES = [
+    {"name": "iflet-record", "construct": "if-let record pattern (then / else / else-if chain / closures made there)",
+     "merges": [("PW", "W"), ("PH", "H"), ("PW2", "W2"), ("PH2", "H2"), ("A3", "N"), ("B3", "N"), ("C3", "A3"), ("D3", "B3"),
+                ("PW4", "W4"), ("Q4", "W4"), ("PW5", "W5"), ("PH5", "G5")],
+     "all": [("PW", "W"), ("PH", "H"), ("PW2", "W2"), ("PH2", "H2"), ("B3", "N"), ("C3", "A3"), ("PW4", "W4"), ("Q4", "W4"),
+             ("PW5", "W5"), ("PH5", "G5")],
+     "srcs": [SHAPES_DECL + """
+func d1(s : Shape, {W} : int, {H} : int) -> int
+{
+    if let (Shape::Rect({PW}, {PH}) = s) { {PW} * 100 + {PH} } else { {W} * 100 + {H} }
+}
+func d2(s : Shape, {W2} : int) -> () -> int
+{
+    let {H2} = {#1};
+    if let (Shape::Rect({PW2}, {PH2}) = s)
+    {
+        let func () -> int { {PW2} * 100 + {PH2} }
+    }
+    else
+    {
+        let func () -> int { {W2} * 100 + {H2} }
+    }
+}
+func d3(s : Shape, {N} : int) -> int
+{
+    if let (Shape::Rect({A3}, {B3}) = s) { {A3} + {B3} * 10 }
+    else if let (Shape::Ell({C3}, {D3}) = s) { {C3} * 1000 + {D3} * 100 + {N} }
+    else if let (Shape::Dot = s) { {N} * 3 }
+    else { {N} * 7 }
+}
+func d4(s : Shape, t : Shape, {W4} : int) -> int
+{
+    if let (Shape::Rect({PW4}, ph) = s)
+    {
+        {PW4} + ph
+    }
+    else
+    {
+        if let (Shape::Tri({Q4}, qb, qc) = t) { {Q4} * 100 + qb * 10 + qc } else { {W4} + 5000 }
+    } + {W4} * 100000
+}
+func d5(s : Shape, {W5} : int) -> int
+{
+    let {G5} = {W5} + {#2};
+    let r = if let (Shape::Ell({PW5}, {PH5}) = s) { {PW5} * 10 + {PH5} } else { {W5} * 1000 + {G5} };
+    r * 2 + {G5} + {W5}
+}
+func main() -> int
+{
+    print(d1(Shape::Rect(3, 4), {#3}, {#4})); print(d1(Shape::Ell(5, 6), {#3}, {#4})); print(d1(Shape::Tri(1, 2, 3), {#3}, {#4}));
+    print(d2(Shape::Rect(3, 4), {#5})()); print(d2(Shape::Tri(1, 2, 3), {#5})()); print(d2(Shape::Dot, {#6})());
+    print(d3(Shape::Rect(1, 2), {#7})); print(d3(Shape::Ell(3, 4), {#7})); print(d3(Shape::Tri(5, 6, 7), {#7})); print(d3(Shape::Dot, {#7}));
+    print(d4(Shape::Rect(1, 2), Shape::Tri(3, 4, 5), {#8})); print(d4(Shape::Dot, Shape::Tri(3, 4, 5), {#8})); print(d4(Shape::Ell(8, 9), Shape::Dot, {#8}));
+    print(d5(Shape::Ell(2, 3), {#9})); print(d5(Shape::Rect(2, 3), {#9}));
+    0
+}
+"""]},
+    {"name": "match-record", "construct": "match with record and item patterns (arms and closures made in arms)",
+     "merges": [("PW", "W"), ("PH", "H"), ("QW", "W"), ("QW", "PW"), ("QH", "PH"), ("TC", "PW"), ("PA2", "K2"), ("QA2", "PA2"), ("TA2", "PA2")],
+     "all": [("PW", "W"), ("PH", "H"), ("QW", "W"), ("PA2", "K2"), ("QA2", "PA2"), ("TA2", "PA2")],
+     "srcs": [SHAPES_DECL + """
+func m1(s : Shape, {W} : int, {H} : int) -> int
+{
+    match s
+    {
+        Shape::Rect({PW}, {PH}) -> {PW} * 100 + {PH};
+        Shape::Ell({QW}, {QH}) -> {QW} * 10000 + {QH} * 100 + {H};
+        Shape::Tri({TA}, {TB}, {TC}) -> {W} * 100 + {H} + {TA} * 1000000 + {TB} + {TC};
+        Shape::Dot -> {W} * 7 + {H};
+    }
+}
+func m2(s : Shape, {K2} : int) -> () -> int
+{
+    let base = {K2} * 2;
+    match s
+    {
+        Shape::Rect({PA2}, pb) -> let func () -> int { {PA2} * 10 + pb + base };
+        Shape::Ell({QA2}, qb) -> let func () -> int { {QA2} * 100 + qb + base };
+        Shape::Tri({TA2}, tb, tc) -> let func () -> int { {TA2} + tb + tc + base * 1000 };
+        Shape::Dot -> let func () -> int { {K2} + base };
+    }
+}
+func main() -> int
+{
+    print(m1(Shape::Rect(3, 4), {#1}, {#2})); print(m1(Shape::Ell(5, 6), {#1}, {#2})); print(m1(Shape::Tri(1, 2, 3), {#1}, {#2})); print(m1(Shape::Dot, {#1}, {#2}));
+    print(m2(Shape::Rect(3, 4), {#3})()); print(m2(Shape::Ell(5, 6), {#3})()); print(m2(Shape::Tri(1, 2, 3), {#4})()); print(m2(Shape::Dot, {#4})());
+    0
+}
+"""]},
+    {"name": "array-dims", "construct": "dimension names of array parameters read directly and captured by closures in several orders",
+     "merges": [("R1", "R"), ("C1", "C"), ("R2", "R"), ("C2", "C"), ("R3", "R"), ("C3", "C"), ("I3", "R3"), ("D4", "R"), ("E4", "C"),
+                ("K4", "K3"), ("D5", "R"), ("R6", "R"), ("C6", "C")],
+     "srcs": ["""
+func direct(a[{R}, {C}] : int) -> int { {C} * 100 + {R} }
+func rc(a[{R1}, {C1}] : int) -> () -> int { let func () -> int { {R1} * 100 + {C1} } }
+func width(a[{R2}, {C2}] : int) -> () -> int { let func () -> int { {C2} } }
+func cr(a[{R6}, {C6}] : int, {P6} : int) -> () -> int { let func () -> int { {C6} * 100 + {R6} } }
+func at(a[{R3}, {C3}] : int, {K3} : int) -> (int) -> int
+{
+    let func ({I3} : int) -> int
+    {
+        let r = {I3} / {C3};
+        let c = {I3} % {C3};
+        a[r, c] + {K3}
+    }
+}
+func two({K4} : int, a[{D4}] : int, b[{E4}] : int) -> () -> int
+{
+    func shape() -> int { {K4} + {E4} * 100 + {D4} };
+    shape
+}
+func sum(t[{D5}] : int) -> () -> int
+{
+    let func () -> int
+    {
+        var s = 0;
+        var i = 0;
+        for (i = 0; i < {D5}; i = i + 1) { s = s * 10 + t[i] };
+        s
+    }
+}
+func main() -> int
+{
+    let m = [ [ 0, 1, 2 ], [ 10, 11, 12 ] ] : int;
+    let u = [ 1, 2, 3 ] : int;
+    let v = [ 4, 5, 6, 7, 8 ] : int;
+    print(direct(m)); print(rc(m)()); print(width(m)()); print(cr(m, {#1})());
+    print(at(m, {#2})(3)); print(at(m, {#2})(2));
+    print(two({#3}, u, v)()); print(two({#3}, v, u)());
+    print(sum(u)()); print(sum(v)());
+    0
+}
+""", """
+func direct(a[{R}, {C}] : int) -> int { {C} * 100 + {R} }
+func rc(a[{R1}, {C1}] : int) -> () -> int { let r0 = {R1}; let c0 = {C1}; let func () -> int { r0 * 100 + c0 } }
+func width(a[{R2}, {C2}] : int) -> () -> int { let c0 = {C2}; let func () -> int { c0 } }
+func cr(a[{R6}, {C6}] : int, {P6} : int) -> () -> int { let r0 = {R6}; let c0 = {C6}; let func () -> int { c0 * 100 + r0 } }
+func at(a[{R3}, {C3}] : int, {K3} : int) -> (int) -> int
+{
+    let c0 = {C3};
+    let func ({I3} : int) -> int
+    {
+        let r = {I3} / c0;
+        let c = {I3} % c0;
+        a[r, c] + {K3}
+    }
+}
+func two({K4} : int, a[{D4}] : int, b[{E4}] : int) -> () -> int
+{
+    let d0 = {D4};
+    let e0 = {E4};
+    func shape() -> int { {K4} + e0 * 100 + d0 };
+    shape
+}
+func sum(t[{D5}] : int) -> () -> int
+{
+    let d0 = {D5};
+    let func () -> int
+    {
+        var s = 0;
+        var i = 0;
+        for (i = 0; i < d0; i = i + 1) { s = s * 10 + t[i] };
+        s
+    }
+}
+func main() -> int
+{
+    let m = [ [ 0, 1, 2 ], [ 10, 11, 12 ] ] : int;
+    let u = [ 1, 2, 3 ] : int;
+    let v = [ 4, 5, 6, 7, 8 ] : int;
+    print(direct(m)); print(rc(m)()); print(width(m)()); print(cr(m, {#1})());
+    print(at(m, {#2})(3)); print(at(m, {#2})(2));
+    print(two({#3}, u, v)()); print(two({#3}, v, u)());
+    print(sum(u)()); print(sum(v)());
+    0
+}
+"""]},
+    {"name": "range-slice-dims", "construct": "bound names of range and slice parameters read directly and captured by closures",
+     "merges": [("F1", "F"), ("T1", "T"), ("K1", "K0"), ("F2", "F"), ("T2", "T"), ("F3", "F"), ("T3", "T")],
+     "srcs": ["""
+func rd([ {F} .. {T} ] : range, {K0} : int) -> int { {T} * 100 + {F} + {K0} * 10000 }
+func rcl([ {F1} .. {T1} ] : range, {K1} : int) -> () -> int { let func () -> int { {T1} * 100 + {F1} } }
+func rt([ {F2} .. {T2} ] : range) -> () -> int { let func () -> int { {T2} } }
+func sl(a[ {F3} .. {T3} ] : int) -> () -> int { let func () -> int { {T3} * 100 + {F3} + a[{F3}] * 10000 } }
+func main() -> int
+{
+    let r = [ {#1} .. {#2} ];
+    let a = [ 0, 1, 2, 3, 4, 5, 6, 7, 8, 9 ] : int;
+    print(rd(r, {#4})); print(rcl(r, {#3})()); print(rt(r)()); print(sl(a[2 .. 5])());
+    0
+}
+""", """
+func rd([ {F} .. {T} ] : range, {K0} : int) -> int { {T} * 100 + {F} + {K0} * 10000 }
+func rcl([ {F1} .. {T1} ] : range, {K1} : int) -> () -> int { let f0 = {F1}; let t0 = {T1}; let func () -> int { t0 * 100 + f0 } }
+func rt([ {F2} .. {T2} ] : range) -> () -> int { let t0 = {T2}; let func () -> int { t0 } }
+func sl(a[ {F3} .. {T3} ] : int) -> () -> int { let f0 = {F3}; let t0 = {T3}; let func () -> int { t0 * 100 + f0 + a[f0] * 10000 } }
+func main() -> int
+{
+    let r = [ {#1} .. {#2} ];
+    let a = [ 0, 1, 2, 3, 4, 5, 6, 7, 8, 9 ] : int;
+    print(rd(r, {#4})); print(rcl(r, {#3})()); print(rt(r)()); print(sl(a[2 .. 5])());
+    0
+}
+"""]},
+    {"name": "listcomp", "construct": "list comprehension qualifiers (scope of the qualifier variables, closures made in the element expression)",
+     "merges": [("U", "X"), ("V", "Y"), ("U2", "X2"), ("U3", "U"), ("W3", "Z3")],
+     "srcs": ["""
+func lc({X} : int, {Y} : int) -> int
+{
+    let t = [ {U} * 10 + {V} | {U} in [ 1, 2, 3 ] : int; {V} in [ 4, 5 ] : int ] : int;
+    var s = 0;
+    for (e in t) { s = s + e };
+    s * 100 + {X} * 10 + {Y}
+}
+func lf({X2} : int) -> int
+{
+    let fs = [ let func (v : int) -> int { v * {U2} } | {U2} in [ 1, 10, 100 ] : int ] : (int) -> int;
+    fs[0](2) + fs[1](3) + fs[2](4) + {X2} * 1000
+}
+func lz({Z3} : int) -> int
+{
+    let t = [ {U3} + {W3} | {U3} in [ 1 .. 3 ]; {W3} in [ 0 .. {U3} ] ] : int;
+    var s = 0;
+    for (e in t) { s = s * 2 + e };
+    s + {Z3}
+}
+func main() -> int
+{
+    print(lc({#1}, {#2})); print(lf({#3})); print(lz({#4}));
+    0
+}
+"""]},
+    {"name": "forin-slice", "construct": "for-in over arrays, slices and ranges (scope of the loop variable, closures made in the body)",
+     "merges": [("E", "X"), ("E2", "X2"), ("I3", "X3"), ("E4", "E"), ("J5", "X5")],
+     "srcs": ["""
+func fs(a[D] : int, {X} : int) -> int
+{
+    var s = 0;
+    for ({E} in a[1 .. D - 2]) { s = s * 10 + {E} };
+    s + {X} * 100000
+}
+func fc(a[D] : int, {X2} : int) -> int
+{
+    var fs = [ let func () -> int { 0 }, let func () -> int { 0 }, let func () -> int { 0 } ] : () -> int;
+    var k = 0;
+    for ({E2} in a[0 .. 2]) { fs[k] = let func () -> int { {E2} * 2 }; k = k + 1 };
+    fs[0]() + fs[1]() * 10 + fs[2]() * 100 + {X2}
+}
+func fr({X3} : int) -> int
+{
+    var s = 0;
+    for ({I3} in [ 3 .. 1 ]) { s = s * 10 + {I3} };
+    s + {X3} * 1000
+}
+func fn(a[D] : int) -> int
+{
+    var s = 0;
+    for ({E4} in a) { s = s + {E4} };
+    s
+}
+func fj({X5} : int) -> int
+{
+    var s = 0;
+    for (i in [ 0 .. 2 ]) { for ({J5} in [ i .. 2 ]) { s = s * 3 + {J5} + i } };
+    s + {X5}
+}
+func main() -> int
+{
+    let a = [ 1, 2, 3, 4, 5, 6 ] : int;
+    print(fs(a, {#1})); print(fc(a, {#2})); print(fr({#3})); print(fn(a)); print(fj({#4}));
+    0
+}
+"""]},
+    {"name": "catch-clause", "construct": "catch-clause bodies (see the parameters and the definition scope, not the locals of the body)",
+     "merges": [("L", "G"), ("M", "L"), ("L2", "G2"), ("M2", "Q2"), ("L3", "P3")],
+     "srcs": ["""
+func outer({G} : int) -> int
+{
+    func cc(p : int, q : int) -> int
+    {
+        let {L} = p * 2;
+        {L} / q
+    }
+    catch (division_by_zero)
+    {
+        let {M} = {G} + p;
+        {M} * 10
+    };
+    cc({#1}, 0) + cc({#2}, 2) * 100000
+}
+func mk({G2} : int) -> (int, int) -> int
+{
+    func cc(p : int, {Q2} : int) -> int
+    {
+        var {L2} = p + 1;
+        {L2} = {L2} * 2;
+        [ 1, 2, 3 ] : int [{Q2}] + {L2}
+    }
+    catch (index_out_of_bounds)
+    {
+        let {M2} = 5;
+        {G2} * 1000 + p * 10 + {M2}
+    };
+    cc
+}
+func pl({P3} : int) -> int
+{
+    let t = {P3} % 2;
+    let {L3} = 100 / t;
+    {L3} + 1
+}
+catch (division_by_zero)
+{
+    {P3} * 3
+}
+func main() -> int
+{
+    print(outer({#3})); print(mk({#4})({#5}, 7)); print(mk({#4})({#5}, 1)); print(pl({#6} * 2)); print(pl({#6} * 2 + 1));
+    0
+}
+"""]},
+    {"name": "module-lets", "construct": "module-level lets (initialisers, closures over them, parameters and locals of the same spelling)",
+     "merges": [("A2", "A"), ("A3", "A"), ("J", "B"), ("X4", "F"), ("Y", "G")],
+     "srcs": ["""
+let {A} = {#1};
+let {B} = {A} * 3 + 1;
+let {F} = let func ({I} : int) -> int { {A} + {B} + {I} };
+let {G} = let func ({J} : int) -> int { {J} * {A} };
+
+func usef({X} : int) -> int
+{
+    let {Y} = {A} + {X};
+    {F}({Y})
+}
+func sh({A2} : int) -> int { {A2} * 2 + {B} }
+func sl() -> int { let {A3} = 50; {A3} + {B} }
+func sf({X4} : int) -> int { {X4} + {G}(3) }
+func main() -> int
+{
+    print(usef({#2})); print(sh({#3})); print(sl()); print(sf({#4})); print({G}({B}));
+    0
+}
+"""]},
+]
+
+NAME_POOL = ["w", "h", "n", "k", "x", "y", "len", "idx", "acc", "val", "tmp", "item", "count", "width", "height", "rows", "cols",
+             "first", "last", "total", "alpha", "beta", "gamma", "delta", "left", "right", "top", "bot", "p0", "q1", "zz", "foo", "bar",
+             "baz", "qux", "node", "size", "lim", "cur", "nxt", "prv", "aa", "bb", "cc1", "dd", "ee", "ff", "gg", "hh", "ii", "jj", "kk"]
+
+
+def scope_instances(seed):
+    """-> list of dict(template, construct, spelling, merged (list of (inner, outer)), source)"""
+    import random
+    import re
+    out = []
+    for ti, t in enumerate(SCOPE_TEMPLATES):
+        rng = random.Random(seed * 7919 + ti)
+        phs = []
+        for src in t["srcs"]:
+            for m in re.finditer(r"\{([A-Za-z][A-Za-z0-9]*)\}", src):
+                if m.group(1) not in phs:
+                    phs.append(m.group(1))
+        nums = sorted(set(re.findall(r"\{#(\d+)\}", "".join(t["srcs"]))), key=int)
+        vals = rng.sample(range(2, 95), len(nums))
+        numv = dict(zip(nums, vals))
+        reserved = set(re.findall(r"[A-Za-z_][A-Za-z0-9_]*", re.sub(r"\{[^}]*\}", " ", "".join(t["srcs"]))))
+        pool = [n for n in NAME_POOL if n not in reserved]
+        rng.shuffle(pool)
+        base = {p: "%s_%d" % (pool[i % len(pool)], i) if i >= len(pool) else pool[i] for i, p in enumerate(phs)}
+        renamed = {p: "v%s%dq" % (chr(97 + rng.randrange(26)) * (1 + rng.randrange(9)), i) for i, p in enumerate(phs)}
+
+        def inst(src, names):
+            s = re.sub(r"\{#(\d+)\}", lambda m: str(numv[m.group(1)]), src)
+            return re.sub(r"\{([A-Za-z][A-Za-z0-9]*)\}", lambda m: names[m.group(1)], s)
+
+        def merged(pairs):
+            names = dict(base)
+            # an inner binder takes the (final) spelling of its outer one; chains are followed
+            for _ in range(len(pairs) + 1):
+                for a, b in pairs:
+                    names[a] = names[b]
+            return names
+
+        def add(spelling, pairs, src):
+            out.append({"template": t["name"], "construct": t["construct"], "spelling": spelling, "merged": list(pairs), "source": src})
+
+        add("distinct", [], inst(t["srcs"][0], base))
+        for a, b in t["merges"]:
+            add("merge %s=%s" % (a, b), [(a, b)], inst(t["srcs"][0], merged([(a, b)])))
+        # all merges at once: the template's own list of merges that are safe TOGETHER (default: every
+        # merge; an inner binder listed twice keeps its first outer)
+        seen, allp = set(), []
+        for a, b in t.get("all", t["merges"]):
+            if a not in seen:
+                seen.add(a)
+                allp.append((a, b))
+        add("all", allp, inst(t["srcs"][0], merged(allp)))
+        add("renamed", [], inst(t["srcs"][0], renamed))
+        for k, alt in enumerate(t["srcs"][1:], 1):
+            add("alt%d" % k, [], inst(alt, base))
+            add("alt%d+all" % k, allp, inst(alt, merged(allp)))
+    return out
+
+
+SCOPE_HEAPS = (20000, 400, 150)
+SCOPE_MAX_PER_TEMPLATE = 3
+
+
+def _scope_calls(source):
+    """the argument texts of the print(...) statements of main, in order"""
+    import re
+    m = re.search(r"func main\(\) -> int\n\{(.*)\n\}", source, re.S)
+    body = m.group(1) if m else ""
+    calls, i = [], 0
+    while True:
+        j = body.find("print(", i)
+        if j < 0:
+            break
+        k, depth = j + 6, 1
+        while k < len(body) and depth > 0:
+            depth += {"(": 1, ")": -1}.get(body[k], 0)
+            k += 1
+        calls.append(body[j + 6:k - 1])
+        i = k
+    return calls
+
+
+def _scope_reduce(source, call):
+    """the program reduced to the declarations, the functions named in `call` and main() { print(call); 0 }"""
+    import re
+    chunks, cur = [], []
+    for line in source.split("\n"):
+        if re.match(r"(func|enum|record|let|var) ", line) and cur:
+            chunks.append("\n".join(cur))
+            cur = []
+        cur.append(line)
+    chunks.append("\n".join(cur))
+    keep = []
+    locals_main = ""
+    for ch in chunks:
+        m = re.match(r"\s*func (\w+)\(", ch)
+        if m is None:
+            keep.append(ch)
+        elif m.group(1) == "main":
+            # the lets of main that the call mentions
+            mm = re.search(r"func main\(\) -> int\n\{(.*)\n\}", ch, re.S)
+            for st in re.findall(r"\n    (let \w+ = .*?;)(?=\n)", mm.group(1) if mm else "", re.S):
+                if re.search(r"\b%s\b" % re.escape(st.split()[1]), call):
+                    locals_main += "    %s\n" % st
+        elif re.search(r"\b%s\(" % re.escape(m.group(1)), call):
+            keep.append(ch)
+    return "\n".join(k.strip("\n") for k in keep if k.strip()) + "\nfunc main() -> int\n{\n%s    print(%s);\n    0\n}\n" % (locals_main, call)
+
+
+def _first_diff(o, b):
+    po, pb = o["printed"], b["printed"]
+    for i in range(max(len(po), len(pb))):
+        if i >= len(po) or i >= len(pb) or po[i] != pb[i]:
+            return i
+    return len(pb)
+
+
+def run_scope_family(ctx, nevrun):
+    """runs every spelling of every template; all spellings of a template must behave like `distinct`"""
+    cases = scope_instances(ctx.seed)
+    tmp = tempfile.mkdtemp(prefix="scopemeta_", dir=ctx.outdir)
+
+    def run_batch(name, progs):
+        batch = os.path.join(tmp, name)
+        with open(batch, "w") as f:
+            for pid, mem, src in progs:
+                f.write("@@@ %s stack=3000 mem=%d\n%s" % (pid, mem, src if src.endswith("\n") else src + "\n"))
+        rc, out, err = common.sh([nevrun, "--timeout", "10", "--batch", batch], timeout=900, env=evaldiff.drv_env())
+        return evaldiff.parse_nevrun(out)
+
+    real = run_batch("batch.txt", [("s%d.h%d" % (i, mem), mem, c["source"]) for i, c in enumerate(cases) for mem in SCOPE_HEAPS])
+    stats = {"programs": len(cases), "runs": 0, "agree": 0, "heap_limit_skipped": 0, "templates": len(SCOPE_TEMPLATES)}
+    distinct = {c["template"]: (i, c) for i, c in enumerate(cases) if c["spelling"] == "distinct"}
+    found = []          # (case, mem, outcome, base outcome or None, kind)
+    per_template = {}
+    for i, c in enumerate(cases):
+        bi, bc = distinct[c["template"]]
+        b = real.get("s%d.h%d" % (bi, SCOPE_HEAPS[0]))
+        for mem in SCOPE_HEAPS:
+            o = real.get("s%d.h%d" % (i, mem))
+            if o is None or b is None:
+                ctx.correspondence_broken("scope-meta:not-run", {"template": c["template"], "spelling": c["spelling"], "mem": mem})
+                continue
+            stats["runs"] += 1
+            if o["kind"] == "LIMIT" and mem != SCOPE_HEAPS[0]:
+                stats["heap_limit_skipped"] += 1
+                continue
+            n = per_template.get(c["template"], 0)
+            if o["kind"] == "CRASH":
+                # a crash of the distinct spelling is reported once for the template; the others only if that one runs
+                if (c is bc and mem == SCOPE_HEAPS[0]) or b["kind"] != "CRASH":
+                    if n < SCOPE_MAX_PER_TEMPLATE:
+                        per_template[c["template"]] = n + 1
+                        found.append((c, mem, o, None, "crash"))
+                break
+            if b["kind"] != "RESULT":
+                if c is bc and mem == SCOPE_HEAPS[0] and b["kind"] != "CRASH":
+                    ctx.correspondence_broken("scope-meta:template-does-not-run:%s" % c["template"],
+                                              {"outcome": evaldiff.short(b), "log": b["log"][-800:], "source": c["source"]})
+                break
+            if evaldiff.same(o, b):
+                stats["agree"] += 1
+            else:
+                if n < SCOPE_MAX_PER_TEMPLATE:
+                    per_template[c["template"]] = n + 1
+                    found.append((c, mem, o, b, "diff"))
+                break
+    # reduce every finding to the function(s) of the first differing print and run that again
+    red = []
+    for k, (c, mem, o, b, kind) in enumerate(found):
+        bc = distinct[c["template"]][1]
+        calls = _scope_calls(c["source"])
+        idx = len(o["printed"]) if kind == "crash" else _first_diff(o, b)
+        call = calls[idx] if idx < len(calls) else None
+        r = {"call": call}
+        if call is not None:
+            bcalls = _scope_calls(bc["source"])
+            r["src"] = _scope_reduce(c["source"], call)
+            r["base_src"] = _scope_reduce(bc["source"], bcalls[idx]) if idx < len(bcalls) else None
+        red.append(r)
+    progs = []
+    for k, r in enumerate(red):
+        if r.get("src"):
+            progs.append(("r%d.o" % k, found[k][1], r["src"]))
+            if r.get("base_src"):
+                progs.append(("r%d.b" % k, SCOPE_HEAPS[0], r["base_src"]))
+    real2 = run_batch("reduced.txt", progs) if progs else {}
+    shutil.rmtree(tmp, ignore_errors=True)
+    for k, (c, mem, o, b, kind) in enumerate(found):
+        r = red[k]
+        tag = "%s:%s" % (c["template"], c["spelling"].replace(" ", ":"))
+        detail = {"template": c["template"], "construct": c["construct"], "spelling": c["spelling"], "merged_binders": c["merged"],
+                  "heap_cells": mem, "source": c["source"], "observed": evaldiff.short(o), "log": o["log"][-600:],
+                  "first_differing_call": r.get("call")}
+        mini = ""
+        ro, rb = real2.get("r%d.o" % k), real2.get("r%d.b" % k)
+        if ro is not None and rb is not None and rb["kind"] == "RESULT" and (
+                (kind == "crash" and ro["kind"] == "CRASH") or (kind == "diff" and ro["kind"] != "LIMIT" and not evaldiff.same(ro, rb))):
+            detail["minimised"] = {"source": r["src"], "observed": evaldiff.short(ro), "distinct_source": r["base_src"],
+                                   "distinct_observed": evaldiff.short(rb)}
+            mini = "; reduced to `%s`: %s instead of %s" % (r["call"], ro["value"] if ro["kind"] == "CRASH" else evaldiff.short(ro)["printed"] or evaldiff.short(ro)["kind"],
+                                                            evaldiff.short(rb)["printed"])
+        elif kind == "crash" and ro is not None and ro["kind"] == "CRASH":
+            detail["minimised"] = {"source": r["src"], "observed": evaldiff.short(ro)}
+            mini = "; reduced to `%s`" % r["call"]
+        if kind == "crash":
+            ctx.violation("scope-meta:crash:%s" % tag, "scoping template %s (%s), spelling `%s`, heap %d: the real compiler/VM crashes (%s)%s" % (
+                c["template"], c["construct"], c["spelling"], mem, o["value"], mini), detail)
+        else:
+            detail["expected_like_distinct_spelling"] = evaldiff.short(b)
+            detail["distinct_source"] = distinct[c["template"]][1]["source"]
+            ctx.violation("scope-meta:%s" % tag,
+                          "scoping template %s (%s): spelling `%s` (binders %s share a name; lexical scoping gives every use the same binder as "
+                          "before) behaves differently from the spelling with all binders distinct%s%s" % (
+                              c["template"], c["construct"], c["spelling"], c["merged"] or "-",
+                              "" if mem == SCOPE_HEAPS[0] else " (heap %d cells)" % mem,
+                              mini or ": %s instead of %s" % (evaldiff.short(o)["printed"] if o["kind"] == "RESULT" else evaldiff.short(o), evaldiff.short(b)["printed"])), detail)
+    ctx.count(evaluations=stats["runs"], nontrivial=len([c for c in cases if c["spelling"] != "distinct"]))
+    ctx.coverage["scope_metamorphic_family"] = dict(stats, constructs=[t["construct"] for t in SCOPE_TEMPLATES],
+                                                   spellings_per_template={t["name"]: len([c for c in cases if c["template"] == t["name"]]) for t in SCOPE_TEMPLATES},
+                                                   heaps=list(SCOPE_HEAPS))
+    return stats
 
 
 def run(ctx):
@@ -51,6 +655,12 @@ def run(ctx):
     tmp = tempfile.mkdtemp(prefix="corpus_", dir=ctx.outdir)
     ncorpus = c02mod.report_corpus(ctx, nevrun, tmp, CORPUS, "C08")
     shutil.rmtree(tmp, ignore_errors=True)
+    try:
+        run_scope_family(ctx, nevrun)
+    except common.BuildError:
+        raise
+    except Exception as ex:
+        ctx.correspondence_broken("scope-meta-crashed", repr(ex)[:500])
     n = 2100 if ctx.tier == "quick" else 27000
     r = evaldiff.run_evaldiff(ctx, PROFILES, n, ctx.tier, variants=("o", "u", "r"), nevrun=nevrun,
                               shrink_max=2 if ctx.tier == "quick" else 4, heaps=HEAPS, heap_mode="all")
@@ -80,8 +690,9 @@ def run(ctx):
                             "scopes, use after the inner scope closed), closure (counters shared by two closures, closures returned "
                             "and called after the definer returned, distinct activations, recursion through a captured name, "
                             "closures over loop variables, adjacent mutually visible nested functions, catch clauses reading "
-                            "captured variables, closures called as temporaries around an allocating callee) and alias; the original also "
-                            "with heaps of 150 and 400 cells; each run as generated, uniquified and injectively renamed on the "
+                            "captured variables, closures called as temporaries around an allocating callee, function-typed cells re-assigned with closures of "
+                            "the same literal from other activations, functions nested in a named nested function that mention it) and alias; the original also "
+                            "with heaps of 150, 220 and 400 cells; each run as generated, uniquified and injectively renamed on the "
                             "real compiler and compared with the evaluator (seed %d); evaluations = programs x 3 spellings + small-heap runs; "
                             "non-trivial = the profile's mechanism occurs (>= 2 shadowing binders / an escaping closure is called / "
                             "an alias is written and read) and all four outcomes agree" % ctx.seed)
